@@ -463,12 +463,12 @@ mod v_iface_ingress6 {
         }
     }
 
-    // @harness props=C03,C10 cfg=KI6t tier=q to=1500 mem=12 unwind=24 opts=nomem covers=1 funcs=InterfaceInner::process_ip;InterfaceInner::process_ipv6;InterfaceInner::process_hopbyhop;InterfaceInner::process_nxt_hdr;InterfaceInner::process_tcp;InterfaceInner::icmpv6_reply bounds=raw-IP_medium,_one_listening_TCP_socket;_own_fe80::1_and_2001:db8::1;_concrete_40-octet_header_(hop_limit_free),_source_with_4_symbolic_octets,_destination_2001:db8::1_or_ff02::1;_24_free_octets_after_the_header;_next_header_0:_8-octet_hop-by-hop_options_header_holding_one_option_with_free_type_and_4_free_data_octets,_then_no-next-header
-    #[cfg(feature = "socket-tcp")]
-    #[kani::proof]
-    pub(crate) fn ipv6_bytes_free() {
-        ipv6_free_case(0);
-    }
+    // (removed: ipv6_bytes_free = ipv6_free_case(0), a hop-by-hop options header in front of "no next header".  With a
+    // free length octet and inner next header, with six free option octets, and with a single option of free type and
+    // four free data octets it did not finish in 25 minutes each.  Option walks over free bytes are decided at the wire
+    // level (view_ipv6_hbh, view_ipv6_options_iter, view_ipv6_option); InterfaceInner::process_hopbyhop itself is not
+    // reached by any harness: stated in MANIFEST level_note of C03.)
+
 
     // @harness props=C03,C10 cfg=KI6t tier=t to=1500 mem=12 unwind=24 opts=nomem covers=1 funcs=InterfaceInner::process_ip;InterfaceInner::process_ipv6;InterfaceInner::process_hopbyhop;InterfaceInner::process_nxt_hdr;InterfaceInner::process_tcp;InterfaceInner::icmpv6_reply bounds=raw-IP_medium,_one_listening_TCP_socket;_own_fe80::1_and_2001:db8::1;_concrete_40-octet_header_(hop_limit_free),_source_with_4_symbolic_octets,_destination_2001:db8::1_or_ff02::1;_24_free_octets_after_the_header;_next_header_6_(TCP):_every_TCP_header_octet_free
     #[cfg(feature = "socket-tcp")]
